@@ -12,7 +12,7 @@ import (
 	"verif/harness/hlib"
 )
 
-// engine "seq" (C08 a): {"src": latin1, "langs": [...], "t": spec tree (optional)}
+// engine "seq" (C08 a): {"srcs": [latin1 ...] (one program under several layouts), "langs": [...], "t": spec tree (optional)}
 // For every variant in which Parse accepts src: the statements yielded by Parser.StmtsSeq (and by
 // the deprecated wrapper Parser.Stmts) must be deep-equal -- positions and comments included -- to
 // Parse's File.Stmts, for three ways of delivering the bytes (all at once, one byte per Read, one
@@ -27,6 +27,7 @@ type seqFail struct {
 	Kind   string `json:"kind"`
 	Mode   string `json:"mode"`
 	Detail string `json:"detail"`
+	Item   int    `json:"item"`
 }
 
 func readerFor(mode string, src []byte) io.Reader {
@@ -42,7 +43,7 @@ func readerFor(mode string, src []byte) io.Reader {
 
 func seqEngine(raw json.RawMessage, _ []string) (any, error) {
 	var v struct {
-		Src   string   `json:"src"`
+		Srcs  []string `json:"srcs"` // the same program under several layouts
 		Langs []string `json:"langs"`
 		Valid []string `json:"valid"`
 		T     any      `json:"t"`
@@ -51,7 +52,6 @@ func seqEngine(raw json.RawMessage, _ []string) (any, error) {
 	if err := json.Unmarshal(raw, &v); err != nil {
 		return nil, err
 	}
-	src := hlib.Unlatin1(v.Src)
 	valid := map[string]bool{}
 	for _, l := range v.Valid {
 		valid[l] = true
@@ -62,86 +62,91 @@ func seqEngine(raw json.RawMessage, _ []string) (any, error) {
 	}
 	var fails []seqFail
 	runs, parsed, specChecked := 0, 0, 0
+	item := 0
 	add := func(ln, kind, mode, detail string) {
 		if len(fails) < 12 {
-			fails = append(fails, seqFail{ln, kind, mode, detail})
+			fails = append(fails, seqFail{ln, kind, mode, detail, item})
 		}
 	}
-	for _, ln := range v.Langs {
-		lang := hlib.LangOf(ln)
-		for _, keep := range []bool{true, false} {
-			opts := []syntax.ParserOption{syntax.Variant(lang), syntax.KeepComments(keep)}
-			full, err := syntax.NewParser(opts...).Parse(bytes.NewReader(src), "")
-			runs++
-			if err != nil {
-				continue
-			}
-			parsed++
-			parseMatchesSpec := specStmts != nil && valid[ln] && reflect.DeepEqual(normJSON(Abs(full.Stmts)), specStmts)
-			modes := []string{"whole", "byte", "line"}
-			if !keep && !v.Full {
-				modes = modes[:1]
-			}
-			for _, mode := range modes {
-				tag := mode
-				if !keep {
-					tag += "+nocomments"
-				}
-				// ---- complete iteration
-				var got []*syntax.Stmt
-				var gerr error
-				for s, err := range syntax.NewParser(opts...).StmtsSeq(readerFor(mode, src)) {
-					if err != nil {
-						gerr = err
-						break
-					}
-					got = append(got, s)
-				}
-				runs++
-				if gerr != nil {
-					add(ln, "seq-error", tag, gerr.Error())
-					continue
-				}
-				if d := diffStmts(full.Stmts, got); d != "" {
-					add(ln, "seq-differs", tag, d)
-				}
-				if parseMatchesSpec {
-					specChecked++
-					if a := normJSON(Abs(got)); !reflect.DeepEqual(a, specStmts) {
-						add(ln, "seq-differs-from-spec", tag, sigTreeDiff(specStmts, a))
-					}
-				}
-				// ---- the deprecated callback wrapper
-				var got2 []*syntax.Stmt
-				err := syntax.NewParser(opts...).Stmts(readerFor(mode, src), func(s *syntax.Stmt) bool {
-					got2 = append(got2, s)
-					return true
-				})
+	for si, s := range v.Srcs {
+		item = si
+		src := hlib.Unlatin1(s)
+		for _, ln := range v.Langs {
+			lang := hlib.LangOf(ln)
+			for _, keep := range []bool{true, false} {
+				opts := []syntax.ParserOption{syntax.Variant(lang), syntax.KeepComments(keep)}
+				full, err := syntax.NewParser(opts...).Parse(bytes.NewReader(src), "")
 				runs++
 				if err != nil {
-					add(ln, "stmts-error", tag, err.Error())
-				} else if d := diffStmts(full.Stmts, got2); d != "" {
-					add(ln, "stmts-differs", tag, d)
+					continue
 				}
-				// ---- early break after k statements
-				for k := 1; k <= len(full.Stmts); k++ {
-					var pre []*syntax.Stmt
-					var perr error
+				parsed++
+				parseMatchesSpec := specStmts != nil && valid[ln] && reflect.DeepEqual(normJSON(Abs(full.Stmts)), specStmts)
+				modes := []string{"whole", "byte", "line"}
+				if !keep && !v.Full {
+					modes = modes[:1]
+				}
+				for _, mode := range modes {
+					tag := mode
+					if !keep {
+						tag += "+nocomments"
+					}
+					// ---- complete iteration
+					var got []*syntax.Stmt
+					var gerr error
 					for s, err := range syntax.NewParser(opts...).StmtsSeq(readerFor(mode, src)) {
 						if err != nil {
-							perr = err
+							gerr = err
 							break
 						}
-						pre = append(pre, s)
-						if len(pre) == k {
-							break
-						}
+						got = append(got, s)
 					}
 					runs++
-					if perr != nil {
-						add(ln, "seq-break-error", tag, fmt.Sprintf("k=%d: %v", k, perr))
-					} else if d := diffStmts(full.Stmts[:k], pre); d != "" {
-						add(ln, "seq-break-differs", tag, fmt.Sprintf("k=%d: %s", k, d))
+					if gerr != nil {
+						add(ln, "seq-error", tag, gerr.Error())
+						continue
+					}
+					if d := diffStmts(full.Stmts, got); d != "" {
+						add(ln, "seq-differs", tag, d)
+					}
+					if parseMatchesSpec {
+						specChecked++
+						if a := normJSON(Abs(got)); !reflect.DeepEqual(a, specStmts) {
+							add(ln, "seq-differs-from-spec", tag, sigTreeDiff(specStmts, a))
+						}
+					}
+					// ---- the deprecated callback wrapper
+					var got2 []*syntax.Stmt
+					err := syntax.NewParser(opts...).Stmts(readerFor(mode, src), func(s *syntax.Stmt) bool {
+						got2 = append(got2, s)
+						return true
+					})
+					runs++
+					if err != nil {
+						add(ln, "stmts-error", tag, err.Error())
+					} else if d := diffStmts(full.Stmts, got2); d != "" {
+						add(ln, "stmts-differs", tag, d)
+					}
+					// ---- early break after k statements
+					for k := 1; k <= len(full.Stmts); k++ {
+						var pre []*syntax.Stmt
+						var perr error
+						for s, err := range syntax.NewParser(opts...).StmtsSeq(readerFor(mode, src)) {
+							if err != nil {
+								perr = err
+								break
+							}
+							pre = append(pre, s)
+							if len(pre) == k {
+								break
+							}
+						}
+						runs++
+						if perr != nil {
+							add(ln, "seq-break-error", tag, fmt.Sprintf("k=%d: %v", k, perr))
+						} else if d := diffStmts(full.Stmts[:k], pre); d != "" {
+							add(ln, "seq-break-differs", tag, fmt.Sprintf("k=%d: %s", k, d))
+						}
 					}
 				}
 			}
